@@ -12,3 +12,38 @@ Proof.
            | ex_intro _ R (ex_intro _ _ (ex_intro _ _ (ex_intro _ _ (conj HR _)))) => ex_intro _ R HR
            end).
 Qed.
+
+From Coq Require Import Permutation.
+From GB Require Import Cmp Connect Heap SortProofs.
+
+(** the bubble sort of [order_events] returns — within the fuel the model gives it — whenever
+    the event order is asymmetric on the events being sorted (no pair is "less" in both
+    directions), and whatever it returns is a sorted permutation *)
+Theorem C03_bubble_sort_terminates :
+  forall (N : Num) (st : store N) (fuel : nat) (l : list eid),
+  (forall a b, In a l -> In b l -> ev_lt st a b = true -> ev_lt st b a = false) ->
+  inv (ev_lt st) l <= fuel ->
+  exists l', bubble_sort fuel st l = Ok l' /\ Permutation l l' /\ desc (ev_lt st) l'.
+Proof. exact bubble_sort_terminates_asym. Qed.
+
+Theorem C03_bubble_sort_result_sorted :
+  forall (N : Num) (st : store N) (fuel : nat) (l l' : list eid),
+  bubble_sort fuel st l = Ok l' -> Permutation l l' /\ desc (ev_lt st) l'.
+Proof. exact bubble_sort_ok_sorted. Qed.
+
+(** ... and it runs for ever on an order with a pair that is "less" both ways: consistency of
+    the event order (C15) is what termination rests on *)
+Theorem C03_bubble_sort_may_diverge : forall fuel, gsort lt2 fuel (0 :: 1 :: nil) = OutOfFuel.
+Proof. exact gsort_lt2_diverges. Qed.
+
+(** the event queue (std BinaryHeap algorithms) neither loses nor duplicates events, whatever
+    the comparison answers *)
+Theorem C03_heap_push_keeps_elements :
+  forall (T : Type) (le : T -> T -> bool) (dflt : T) (data : list T) (x : T),
+  Permutation (push le dflt data x) (x :: data).
+Proof. exact push_perm. Qed.
+
+Theorem C03_heap_pop_keeps_elements :
+  forall (T : Type) (le : T -> T -> bool) (dflt : T) (data : list T) (top : T) (rest : list T),
+  pop le dflt data = Some (top, rest) -> Permutation data (top :: rest).
+Proof. exact pop_perm. Qed.
